@@ -284,6 +284,11 @@ def diag_units(i: int, rng, sep: str | None) -> list[Unit]:
         Unit([f'{v} = {{"ключ-значение-и-ещё-длиннее": int(8)}}'], [(0, v)], "non-ascii-before-node"),
         Unit([f'{v} = "日本語の長い文字列、日本語の長い文字列", list()'], [(0, v)], "cjk-before-node"),
         Unit([f'{v} = "😀😀😀😀😀😀😀😀", int(8), tuple()'], [(0, v)], "astral-before-nodes"),
+        # an ODD number of one quote character in front of the comment (an apostrophe inside a double-quoted literal, a lone double
+        # quote inside single quotes, an apostrophe in an earlier comment)
+        Unit([f'{v} = str("it\'s"), int(8)'], [(0, v)], "odd-apostrophe-in-string"),
+        Unit([f"{v} = int(8), 'say \"hi'"], [(0, v)], "odd-double-quote-in-string"),
+        Unit([f"{v} = int(8), list()  # don't touch"], [(0, v)], "apostrophe-in-earlier-comment"),
         Unit([f"{v} = 4247"], [(0, v)], "custom-prefix-short-id"),
         Unit([f"{v} = 4249, int(4247)"], [(0, v)], "custom-prefix-short-ids-and-builtin"),
         # multi-line diagnosed nodes: the diagnostic sits on the first line, the node ends lines later
@@ -388,6 +393,7 @@ def fixed_files() -> list[GenFile]:
     mk("a_crlf_bom.py", ["x = int(0)", "y = int(1); w = list()", "z = int(2)"], ["\r\n"] * 3, bom=True)
     mk("a_cr.py", ["x = int(0)", "y = int(1)", "z = int(2)"], ["\r", "\r", ""])
     mk("a_nonascii.py", ['x = {"ключ-значение-и-ещё-длиннее": int(0)}', 'y = "日本語の長い文字列、日本語の長い文字列", list()', 'z = "😀😀😀😀😀😀😀😀", int(8), tuple()'])
+    mk("a_quotes.py", ['x = str("it\'s"), int(0)', "y = int(1), 'say \"hi'", "z = int(2)  # don't"])
     mk("a_prefix.py", ["x = int(4244)", "y = 4242, list()", "z = 4242", "s = 4247", "t = 4249, 4247"])
     mk("a_strings.py", ['v1 = "# noqa", int(8)', "v2 = '# noqa: FURB123 FURB112 ', int(8), list()", 'v3 = int(8), "x  # noqa"', "v4 = int(8), '# noqa: '"])
     mk(
